@@ -479,10 +479,13 @@ class Judge:
         self.lines = 0
         self.bad = 0
         self.sig_seen = {}
+        self.names = {}          # reply command -> number of delivered lines
 
     def check(self, data, origin):
         b = data.encode("utf-8", "surrogatepass")
         self.lines += 1
+        tok = lenient_cmd(b) or "(none)"
+        self.names[tok] = self.names.get(tok, 0) + 1
         faults = line_faults(b)
         if faults:
             self.bad += 1
@@ -937,6 +940,7 @@ def run(ctx):
     ctx.cov["delivered_lines_checked"] = judge.lines
     ctx.cov["delivered_lines_violating"] = judge.bad
     ctx.cov["violation_signatures"] = judge.sig_seen
+    ctx.cov["reply_commands_delivered"] = dict(sorted(judge.names.items()))
     ctx.cov["fuzz"] = {"programs": len(fuzz), "requests_accepted": fa, "lines": fl, "commands": len(cmds)}
     ctx.cov["replayed_requests"] = nsteps
 
